@@ -138,6 +138,12 @@ def step (st : St) (line : String) : IO St := do
     if small "fmg_two_level_diff" 1e-9 == some false then
       IO.println s!"ORACLE C09 two-level FMG start vector is not the interpolated coarse solution ({line.trimAscii})"
       st := { st with oracleFails := st.oracleFails + 1 }
+    match kv rest "fmg_used_object_differs" with
+    | some d =>
+      if d != "0" then
+        IO.println s!"ORACLE C09 the FMG start vector (solve() with maxIterations = 0) of a solver object that has run an earlier solve differs from a fresh object's: it is not a function of the problem data only ({line.trimAscii})"
+        st := { st with oracleFails := st.oracleFails + 1 }
+    | none => pure ()
     let stats ← check st.stats true fun _ => ""
     return { st with stats := stats }
   | "SOL" :: rest =>
